@@ -31,6 +31,7 @@ def parseItem (s : String) : Option Op :=
   | ["drop", k] => some (.drop (nm k))
   | ["save", k] => some (.save (nm k))
   | ["restart"] => some .restart
+  | ["saveall"] => some .saveAll
   | ["ins", k, r, x] => x.toNat?.map (fun x => Op.ins (nm k) (nm r) x)
   | ["del", k, r, x] => x.toNat?.map (fun x => Op.del (nm k) (nm r) x)
   | _ => none
@@ -61,13 +62,13 @@ def seqOp (st : State) (op : Op) : State × Out :=
   let st1 := lastState st0 (List.replicate 7 0)
   (st1, match (st1.threads 0).done.getLast? with | some d => d.2 | none => .ok)
 
-def runH (ops : List Op) : List String × List String × State :=
+def runH (mode : Dur) (ops : List Op) : List String × List String × State :=
   ops.foldl (fun (acc : List String × List String × State) op =>
     let (st', o) := seqOp acc.2.2 op
-    (acc.1 ++ [showOut o], if op == .restart then acc.2.1 ++ [obs st'] else acc.2.1, st')) ([], [], fresh)
+    (acc.1 ++ [showOut o], if op == .restart then acc.2.1 ++ [obs st'] else acc.2.1, st')) ([], [], { fresh with mode := mode })
 
-def modelH (ops : List Op) : String :=
-  let (res, obss, st) := runH ops
+def modelH (mode : Dur) (ops : List Op) : String :=
+  let (res, obss, st) := runH mode ops
   s!"{" ".intercalate res} # {" # ".intercalate (obss ++ [obs st])}"
 
 def parseProgs (s : String) : Option (List (List Op)) :=
@@ -97,6 +98,7 @@ def specOp (s : SKgs) : Op → SKgs × String
   | .drop k => if k = defaultKg then (s, "dd") else if (lookup k s).isNone then (s, "nf") else (erase k s, "ok")
   | .save k => if (lookup k s).isNone then (s, "nf") else (s, "ok")
   | .restart => (s, "ok")
+  | .saveAll => (s, "ok")
   | .ins k r x => match lookup k s with
     | none => (s, "nf")
     | some rels => let cur := (lookup r rels).getD []
@@ -122,18 +124,20 @@ def deleteOnMissing (ops : List Op) : Bool :=
     ((specOp acc.1 o).1, acc.2 || hit)) (specInit, false)).2
 
 /-- the one defect family left in place: colliding metadata file names (`sanitize_name`) -/
-def clsH (ops : List Op) : String :=
-  if hasFileCollision ops then "shard_file_name_collision" else "unclassified"
+def clsH (mode : Dur) (ops : List Op) : String :=
+  if hasFileCollision ops then "shard_file_name_collision"
+  else if mode == .batched && (runH mode ops).2.2.bufDiscarded then "batched_wal_rewrite_discards_buffered_entries"
+  else "unclassified"
 
-def specH (ops : List Op) (impl : String) : String :=
+def specH (mode : Dur) (ops : List Op) (impl : String) : String :=
   match impl.splitOn " # " with
   | resS :: obsS =>
     let res := resS.splitOn " "
     let (expRes, expObs, s) := ops.foldl (fun (acc : List String × List String × SKgs) o =>
       let (s', r) := specOp acc.2.2 o
       (acc.1 ++ [r], if o == .restart then acc.2.1 ++ [showObs s'] else acc.2.1, s')) ([], [], specInit)
-    if res != expRes then specFail (clsH ops) "result-codes-differ-from-the-sequential-spec"
-    else if obsS != expObs ++ [showObs s] then specFail (clsH ops) "observed-knowledge-graphs-differ-from-the-sequential-spec"
+    if res != expRes then specFail (clsH mode ops) "result-codes-differ-from-the-sequential-spec"
+    else if obsS != expObs ++ [showObs s] then specFail (clsH mode ops) "observed-knowledge-graphs-differ-from-the-sequential-spec"
     else specOk
   | [] => specFail "unclassified" "unparsable-impl-output"
 
@@ -186,12 +190,18 @@ def specS (progs : List (List Op)) (sched : List Nat) (impl : String) : String :
     | _ => specFail "unclassified" "unparsable-impl-output"
   | _ => specFail "unclassified" "unparsable-impl-output"
 
+def histWith (mode : Dur) (items : List String) (impl : String) : Reply :=
+  match optMapM parseItem ((" ".intercalate items).splitOn " ; ") with
+  | some ops => { model := modelH mode ops, spec := specH mode ops impl, nt := ops.contains .restart && !(writesOf ops).isEmpty }
+  | none => badReq
+
+/-- `c17.h [D=i|b|a] | items`  (durability mode of the engine: immediate (default), batched, async) -/
 def hist : Handler := fun args impl =>
   match args with
-  | "|" :: items =>
-    match optMapM parseItem ((" ".intercalate items).splitOn " ; ") with
-    | some ops => { model := modelH ops, spec := specH ops impl, nt := ops.contains .restart && !(writesOf ops).isEmpty }
-    | none => badReq
+  | "|" :: items => histWith .immediate items impl
+  | "D=i" :: "|" :: items => histWith .immediate items impl
+  | "D=b" :: "|" :: items => histWith .batched items impl
+  | "D=a" :: "|" :: items => histWith .async items impl
   | _ => badReq
 
 def sched : Handler := fun args impl =>
